@@ -110,7 +110,9 @@ RandomAccessIterator3 parallel_multiway_merge_base(
     for (size_t s = 0; s < num_threads; ++s)
         chunks[s].resize(num_seqs);
 
-    if (mwmsa == MWMSA_SAMPLING)
+    // sampling splitting can only split complete sequences (its last slab
+    // always ends at the sequences' ends): use exact splitting for a prefix
+    if (mwmsa == MWMSA_SAMPLING && static_cast<DiffType>(size) == total_size)
     {
         multiway_merge_sampling_splitting<Stable>(
             seqs_ne.begin(), seqs_ne.end(), static_cast<DiffType>(size),
